@@ -3,6 +3,7 @@ import CstModel.Props.C03
 import CstModel.Props.Gen
 import CstModel.Props.GenToken
 import CstModel.Props.GenIter
+import CstModel.Props.GenNav
 open Cst.C02
 #print axioms history_canonical
 #print axioms observed_range
@@ -20,3 +21,9 @@ open Cst.C02
 #print axioms Cst.Gen.it_next
 #print axioms Cst.Gen.children_new
 #print axioms Cst.Gen.ec_next
+#print axioms Cst.Gen.nv_first
+#print axioms Cst.Gen.nv_last
+#print axioms Cst.Gen.nv_next_after
+#print axioms Cst.Gen.nv_prev_before
+#print axioms Cst.Gen.nv_next_sibling
+#print axioms Cst.Gen.nv_prev_sibling
